@@ -197,6 +197,31 @@ def do_call(desc):
             er7 = guarded(lambda: o.to_er7(ec) if ec else o.to_er7())
             return ['esc', type(o).__module__ + '.' + type(o).__qualname__, er7,
                     [list(x) for x in hl_in] if hl_in is not None else None]
+        if kind == 'unnamed':
+            # elements without a name: the first thing they ask the library is whether their datatype is a base datatype
+            from hl7apy.core import SubComponent, Component, Field
+            _, v = desc
+            sc = SubComponent(datatype='ST', value='a|b', version=v, validation_level=TOLERANT)
+            c = Component(datatype='ST', version=v, validation_level=TOLERANT)
+            c.add(sc)
+            f = Field(datatype='ST', version=v, validation_level=TOLERANT)
+            return ['unnamed', guarded(lambda: sc.to_er7()), guarded(lambda: c.to_er7()), f.datatype, f.version]
+        if kind == 'implicit':
+            # nothing given explicitly: version, level and delimiters come from the process-wide defaults
+            import hl7apy
+            from hl7apy.core import Segment, Message
+            from hl7apy.parser import parse_segment
+            from hl7apy.factories import datatype_factory
+            sg = Segment('PID')
+            sg.pid_5 = 'A^B'
+            ps = guarded(lambda: parse_segment('PID|1||a^b').to_er7())
+            m = Message('ADT_A01')
+            try:
+                dfo = type(datatype_factory('NM', 'abc')).__name__
+            except Exception as e:  # noqa
+                dfo = type(e).__name__
+            return ['implicit', hl7apy.get_default_version(), hl7apy.get_default_validation_level(), sg.version,
+                    sg.validation_level, guarded(lambda: sg.to_er7()), ps, m.version, blank_msh7(m.to_er7())[:12], dfo]
         if kind == 'escape_shared':
             # several values built from ONE list of highlight ranges (the caller's object): encoding reads it, never writes it
             import hl7apy
@@ -272,6 +297,22 @@ RSP_K21 = ('MSH|^~\\&|SEND APP|SEND FAC|REC APP|REC FAC|20110708163514||RSP^K22^
            'VIA DELLE VIE^^CAGLIARI^^^100^H^^092009||||||||||||CAGLIARI')
 
 
+def retype_plan_worker(vs):
+    import hl7apy
+    out = []
+    for v in vs:
+        lib = hl7apy.load_library(v)
+        D = lib.DATATYPES
+        names = [k for k in sorted(D) if '_' in k and D[k][0] == 'sequence']
+        if not names:
+            continue
+        name = 'CX_4' if 'CX_4' in names else names[0]
+        structs = getattr(lib, 'DATATYPES_STRUCTS', {})
+        target = [t for t in ('CE', 'CWE', 'CNE') + tuple(sorted(structs)) if t in structs and t != D[name][2]][0]
+        out.append((v, name, target))
+    return out
+
+
 def build_corpus(run):
     """The corpus: a list of call descriptors (JSON-able lists).  The quick tier takes a seeded
     sample of the factory grid; everything else is always included."""
@@ -317,17 +358,12 @@ def build_corpus(run):
         corpus.append(['escape', v, 'FT', 'x~y\\z', None, 'default'])
         corpus.append(['escape', v, 'ST', 'abcdef', [[0, 3], [2, 4]], 'default'])
         corpus.append(['escape_shared', v, 'ST'])
+        corpus.append(['unnamed', v])
+        corpus.append(['isbase', 'ST', v])
         corpus.append(['escape_shared', v, 'FT'])
-    import hl7apy
-    for v in vs:
-        lib = hl7apy.load_library(v)
-        D = lib.DATATYPES
-        names = [k for k in sorted(D) if '_' in k and D[k][0] == 'sequence']
-        if not names:
-            continue
-        name = 'CX_4' if 'CX_4' in names else names[0]
-        structs = getattr(lib, 'DATATYPES_STRUCTS', {})
-        target = [t for t in ('CE', 'CWE', 'CNE') + tuple(sorted(structs)) if t in structs and t != D[name][2]][0]
+    # (the names are looked up in a forked child: this process must not import the version libraries before the cold rounds)
+    (st, plan), = fork_map([vs], retype_plan_worker, timeout=120)
+    for v, name, target in (plan if st == 'ok' else []):
         corpus.append(['retype', v, name, target])
         # ... and calls that build that component from text afterwards
         if name == 'CX_4':
@@ -448,6 +484,18 @@ def run_threads(assignments, switch=1e-6, join_timeout=90):
     finally:
         sys.setswitchinterval(old)
     return results, [i for i, t in enumerate(ths) if t.is_alive()]
+
+
+def configured_worker(job):
+    """The process-wide defaults are set first (main thread); the same calls then run alone in the main thread and in
+    several worker threads: a default applies to the whole process, not to the thread that set it."""
+    import hl7apy
+    hl7apy.set_default_version(job['version'])
+    hl7apy.set_default_validation_level(job['level'])
+    hl7apy.set_default_encoding_chars(dict(job['ec']))
+    alone = [do_call(d) for d in job['calls']]
+    res, hung = run_threads([list(job['calls']) for _ in range(job.get('n', 3))], switch=1e-6, join_timeout=60)
+    return {'alone': alone, 'results': res, 'hung': hung}
 
 
 def cold_worker(job):
@@ -844,6 +892,60 @@ def import_probe_worker(job):
         mon.free_tool_id(MON_TOOL)
     return {'results': results, 'x_reached': state['x_reached'], 'y_reached': state['y_reached'],
             'hung': [i for i, t in enumerate(ths) if t.is_alive()]}
+
+
+def half_import_worker(job):
+    """Thread Y is executing hl7apy/<pkg>/__init__.py for the first time and is held at its first line (the module object
+    is already in sys.modules, nothing is defined in it yet); thread X then makes its call about the same version.  X has to
+    wait for the import (module lock) and return what it returns alone."""
+    mon = sys.monitoring
+    E = mon.events
+    ysuffix = os.path.join(job['pkg'], '__init__.py')
+    evY, evX = threading.Event(), threading.Event()
+    state = {'ycode': None, 'y_reached': False}
+    ids = {}
+
+    def on_start(code, offset):
+        if code.co_name == '<module>' and code.co_filename.endswith(ysuffix):
+            state['ycode'] = code
+            mon.set_local_events(MON_TOOL, code, E.LINE)
+            return None
+        return mon.DISABLE
+
+    def on_line(code, line):
+        if code is state['ycode'] and threading.get_ident() == ids.get('y') and not state['y_reached']:
+            state['y_reached'] = True
+            evY.set()
+            evX.wait(3)          # X either finishes (it did not wait for the import) or blocks on the module lock
+        return None
+    results = [None, None]
+
+    def X():
+        ids['x'] = threading.get_ident()
+        evY.wait(30)
+        try:
+            results[0] = do_call(job['x'])
+        finally:
+            evX.set()
+
+    def Y():
+        ids['y'] = threading.get_ident()
+        results[1] = do_call(job['y'])
+        evY.set()
+    mon.use_tool_id(MON_TOOL, 'c19half')
+    mon.register_callback(MON_TOOL, E.PY_START, on_start)
+    mon.register_callback(MON_TOOL, E.LINE, on_line)
+    mon.set_events(MON_TOOL, E.PY_START)
+    ths = [threading.Thread(target=X, daemon=True), threading.Thread(target=Y, daemon=True)]
+    try:
+        for t in ths:
+            t.start()
+        for t in ths:
+            t.join(60)
+    finally:
+        mon.set_events(MON_TOOL, 0)
+        mon.free_tool_id(MON_TOOL)
+    return {'results': results, 'y_reached': state['y_reached'], 'hung': [i for i, t in enumerate(ths) if t.is_alive()]}
 
 
 def import_probe_plan():
@@ -1388,7 +1490,7 @@ def version_of(d):
         return d[1]
     if k in ('isbase', 'segment'):
         return d[2]
-    if k in ('build', 'escape'):
+    if k in ('build', 'escape', 'unnamed', 'escape_shared', 'retype'):
         return d[1]
     if k == 'parse':
         m = re.search(r'[|!]P[|!]([0-9.]+)', d[1]) or re.search(r'[|!]D[|!]([0-9.]+)', d[1])
@@ -1632,9 +1734,49 @@ def main(argv=None):
         n = 2 + (r * 5) % 15
         cold_jobs.append({'threads': stress_assignments(run, corpus, n, 5 if not run.thorough else 8),
                           'timeout': 120})
+    # first use of a version from several threads at once, one of them through an unnamed element / is_base_datatype
+    vs_all = versions()
+    for v in (vs_all if run.thorough else run.rng.sample(vs_all, 5)):
+        firsts = [d for d in corpus if d[0] in ('parse', 'build', 'segment') and version_of(d) == v][:2]
+        cold_jobs.append({'threads': [[['load', v]] + firsts[:1], [['unnamed', v]], [['isbase', 'ST', v]], [['unnamed', v]] + firsts[1:2]],
+                          'timeout': 120, 'first_use_of': v})
+    cjobs = []
+    for ver, lvl, ecs in (('2.3', STRICT, {'FIELD': '!', 'COMPONENT': '@', 'SUBCOMPONENT': '$', 'REPETITION': '%', 'ESCAPE': '/',
+                                           'SEGMENT': '\r', 'GROUP': '\r'}),
+                          ('2.6', TOLERANT, {'FIELD': '#', 'COMPONENT': ':', 'SUBCOMPONENT': '=', 'REPETITION': ';', 'ESCAPE': '?',
+                                             'SEGMENT': '\r', 'GROUP': '\r'})):
+        cjobs.append({'version': ver, 'level': lvl, 'ec': ecs, 'calls': [['implicit'], ['implicit']], 'n': 4})
     t0 = time.time()
     pjobs = import_probe_plan()
     workers = {'cold': cold_worker, 'forced': forced_worker, 'probe': import_probe_worker}
+    hjobs = []
+    if hasattr(sys, 'monitoring'):
+        for v in (vs_all if run.thorough else run.rng.sample(vs_all, 4)):
+            for x in (['unnamed', v], ['isbase', 'ST', v]):
+                hjobs.append({'pkg': 'v' + v.replace('.', '_'), 'x': x, 'y': ['load', v]})
+    half_res = fork_map(hjobs, half_import_worker, timeout=120)
+    for j, (st, val) in zip(hjobs, half_res):
+        if st != 'ok' or val['hung'] or not val['y_reached']:
+            infra.append('half-import round %s did not run as planned (%s)' % (j['pkg'], st))
+            continue
+        for d, got in zip((j['x'], j['y']), val['results']):
+            cmp.concurrent_keys.add(key_of(d))
+            cmp.check(d, got, 'forced-import', {'half_import_of': j['pkg'], 'others': [j['x'], j['y']]})
+    run.log('half-import rounds: %d planned, %d ran as planned' % (len(hjobs), sum(1 for st, val in half_res if st == 'ok' and val
+                                                                                 and val.get('y_reached') and not val.get('hung'))))
+    conf_res = fork_map(cjobs, configured_worker, timeout=120)
+    for j, (st, val) in zip(cjobs, conf_res):
+        if st != 'ok' or val['hung']:
+            infra.append('configured round (%s) did not finish (%s)' % (j['version'], st))
+            continue
+        for th in val['results']:
+            for k, got in enumerate(th):
+                cmp.compared += 1
+                if got != val['alone'][k]:
+                    run.fail('concurrent-result-differs', 'a call that takes version, level and delimiters from the process-wide '
+                             'defaults returns something else in a worker thread than in the thread that set the defaults',
+                             call=j['calls'][k], alone=val['alone'][k], concurrent=got, mode='configured-defaults',
+                             configuration=[j['version'], j['level'], ''.join(j['ec'][x] for x in ('FIELD', 'COMPONENT', 'REPETITION', 'ESCAPE', 'SUBCOMPONENT'))])
     both = fork_map([('cold', j) for j in cold_jobs] + [('forced', j) for j in fjobs] + [('probe', j) for j in pjobs],
                     lambda kj: workers[kj[0]](kj[1]), timeout=240)
     cold_res, forced_res = both[:len(cold_jobs)], both[len(cold_jobs):len(cold_jobs) + len(fjobs)]
